@@ -36,6 +36,11 @@ class MG1Uniform(distributions.Uniform):
     def sample(self, sample_shape=torch.Size()):
         return self._to_parameters(super().sample(sample_shape))
 
+    @property
+    def mean(self):
+        # The parameters are a linear map of the box-uniform noise, and so is their mean.
+        return self._to_parameters(super().mean)
+
     def _to_parameters(self, noise):
         A_inv = torch.tensor([[1.0, 1, 0], [0, 1, 0], [0, 0, 1]])
         return noise @ A_inv
